@@ -93,8 +93,8 @@ func stateLeaderCond(R *an.Resolver) an.CondMatcher {
 func runC16(c *core.Ctx) {
 	c16IsStale(c)
 	c16isStale(c)
-	c16Query(c)
-	c16Request(c)
+	c16Query(c, "C16.b")
+	c16Request(c, "C16.b")
 }
 
 func c16IsStale(c *core.Ctx) {
@@ -273,8 +273,8 @@ func storeEffects(fn *ssa.Function) func(ssa.Instruction) (string, bool) {
 	}
 }
 
-func c16Query(c *core.Ctx) {
-	fn := c.Fn("C16.b", "store", "(*Store).Query")
+func c16Query(c *core.Ctx, clause string) {
+	fn := c.Fn(clause, "store", "(*Store).Query")
 	if fn == nil {
 		return
 	}
@@ -353,11 +353,11 @@ func c16Query(c *core.Ctx) {
 			return strings.Join(eff, ";") + " => err(QueryWithContext)"
 		},
 	}
-	reportDecide(c, "C16.b", "(*Store).Query", c.P.Pos(fn.Pos()), an.Decide(spec, c.P.Pos))
+	reportDecide(c, clause, "(*Store).Query", c.P.Pos(fn.Pos()), an.Decide(spec, c.P.Pos))
 }
 
-func c16Request(c *core.Ctx) {
-	fn := c.Fn("C16.b", "store", "(*Store).Request")
+func c16Request(c *core.Ctx, clause string) {
+	fn := c.Fn(clause, "store", "(*Store).Request")
 	if fn == nil {
 		return
 	}
@@ -376,7 +376,7 @@ func c16Request(c *core.Ctx) {
 		Fn: fn, R: R,
 		Vars: []an.Var{
 			{Name: "level", Values: []int{0, 1, 2, 3, 4}}, an.Bool("voter"), an.Bool("leader"), an.Bool("ready"), an.Bool("stale"),
-			{Name: "wait", Values: []int{0, 1, 2}}, {Name: "apply", Values: []int{0, 1, 3}}, an.Bool("nRW"), an.Bool("nRO"),
+			{Name: "wait", Values: []int{0, 1, 2}}, {Name: "apply", Values: []int{0, 1, 2, 3}}, an.Bool("nRW"), an.Bool("nRO"),
 			one("pragmaOK"), one("open"), one("ctxOK"), one("voterOK"), one("compressOK"), one("marshalOK"), one("throttleOK"),
 		},
 		Conds: []an.CondMatcher{
@@ -395,6 +395,7 @@ func c16Request(c *core.Ctx) {
 			an.NilCond("marshalOK", func(v ssa.Value) bool { return callResult(v, 1, "command.Marshal") }),
 			enumNil("apply", "github.com/hashicorp/raft.Future.Error", "github.com/hashicorp/raft.ApplyFuture.Error"),
 			eqGlobal("apply", 1, "ErrNotLeader", "github.com/hashicorp/raft.Future.Error", "github.com/hashicorp/raft.ApplyFuture.Error"),
+			eqGlobal("apply", 2, "ErrLeadershipLost", "github.com/hashicorp/raft.Future.Error", "github.com/hashicorp/raft.ApplyFuture.Error"),
 			boolOf("stale", -1, "store.Store.isStaleRead"),
 			cnt("nRW", 0), cnt("nRO", 1),
 		},
@@ -443,7 +444,10 @@ func c16Request(c *core.Ctx) {
 			switch v["apply"] {
 			case 1:
 				return strings.Join(eff, ";") + " => ErrNotLeader"
-			case 3:
+			case 2, 3:
+				// leadership lost: the entry may already be replicated, so the
+				// request must NOT be reported as "not leader" (the proxy would
+				// forward it and it could be applied twice)
 				return strings.Join(eff, ";") + " => err(Error)"
 			}
 			if v["nRO"] == 1 {
@@ -452,5 +456,5 @@ func c16Request(c *core.Ctx) {
 			return strings.Join(eff, ";") + " => field:error"
 		},
 	}
-	reportDecide(c, "C16.b", "(*Store).Request", c.P.Pos(fn.Pos()), an.Decide(spec, c.P.Pos))
+	reportDecide(c, clause, "(*Store).Request", c.P.Pos(fn.Pos()), an.Decide(spec, c.P.Pos))
 }
